@@ -1476,6 +1476,18 @@ func (e *Engine) dispatchClosed(p *Path, fr *Frame, cw []*ssa.Function, c *ssa.C
 // contract declared for that field as `//@ iface pkg.Type.Field` (an assumption about every function
 // ever stored there, listed as trusted).
 func (e *Engine) fieldContractFor(v ssa.Value) *Contract {
+	// a value of a named function type (for example a parameter of type builder.BuilderGeneratorGetter):
+	// the assumed contract of every function of that type, "iface pkg.TypeName"
+	if nt, ok := v.Type().(*types.Named); ok && nt.Obj().Pkg() != nil {
+		if _, isSig := nt.Underlying().(*types.Signature); isSig {
+			key := nt.Obj().Pkg().Name() + "." + nt.Obj().Name()
+			if ct := e.cs.Ifaces[key]; ct != nil {
+				ct.Used = true
+				e.TrustedUse["function type "+key+" (assumed contract of every function value of this type)"] = true
+				return ct
+			}
+		}
+	}
 	u, ok := v.(*ssa.UnOp)
 	if !ok || u.Op != token.MUL {
 		return nil
